@@ -164,7 +164,10 @@ def gen_cases(ctx):
             for par in gen.all_ordered_trees(n):
                 for v in variants:
                     cases.append({"variant": v, "par": par, "seed": rng.randrange(10 ** 9), "herm": True, "steps": 1})
-    for _ in range(ctx.n(16, 120)):
+    for par in gen.HARD_SHAPES:
+        for v in variants:
+            cases.append({"variant": v, "par": par, "seed": rng.randrange(10 ** 9), "herm": True, "steps": 2})
+    for _ in range(ctx.n(10, 120)):
         for v in variants:
             n = rng.choice([2, 3, 3, 4, 4, 5, 5, 6])
             kind = rng.choice([None, None, "spider", "twig", "bush"])
@@ -218,7 +221,7 @@ def _problem(case):
     nprng = np.random.default_rng(case["seed"])
     par = case["par"]
     n = len(par)
-    ttns, info = gen.random_ttns(rng, nprng, par, phys=(2, 2, 3), bonds=(1, 2, 2, 3))
+    ttns, info = gen.random_ttns(rng, nprng, par, phys=(2, 2, 3) if n <= 5 else (2,), bonds=(1, 2, 2, 3))
     names = info["names"]
     phys = {i: info["open"][i][0] for i in range(n)}
     terms = []
